@@ -201,10 +201,23 @@ PROPS["C05"] = {
   "assumptions": ["links are reliable FIFO byte streams"],
 }
 
+PROPS["C11"] = {
+  "units": ["framing"],
+  "kani_quick": [], "kani_thorough": [],
+  "claim": "Envelope handling only, proved for every message shape (any number of frames up to the container limit, empty frames anywhere): ROUTER's automatic delimiter is inserted right after the identity and removed from exactly that slot, "
+           "DEALER's is prepended and stripped, the payload frames after it are unchanged frame for frame (decode after encode restores the payload); REP's extract_routing_prefix splits at the first empty frame, loses and reorders nothing, "
+           "and treats a message without delimiter as all payload.",
+  "level_note": "Not covered: RouterMap (identity <-> connection maps behind two RwLocks: identity collisions, reconnect histories), the identity gate versus racing messages, ROUTER_MANDATORY error mapping, REQ's envelope handling in req_socket.rs "
+                "(inside async code with tokio::select!). Encode requires the batch to have room for one more frame (derived precondition len < 255).",
+  "technique": "contract-based deductive verification (Verus; FrameBatch as Seq<Msg> view, proved for the real FrameBatch in unit framebatch)",
+  "trusted_base": COMMON_TRUSTED + ["prelude/framebatch.rs: FrameBatch as Seq<Msg> (proved for the real FrameBatch in unit framebatch)"],
+  "assumptions": [],
+}
+
 NOT_BUILT = "check not built yet in this revision (planned, see DESIGN.md section 9)"
 NOT_APPLICABLE = {
  
-  "C09": NOT_BUILT, "C10": NOT_BUILT, "C11": NOT_BUILT, "C14": NOT_BUILT, 
+  "C09": NOT_BUILT, "C10": NOT_BUILT, "C14": NOT_BUILT, 
   "C08": "lost wake-ups are an invariant over interleavings of individual atomic/channel steps plus a liveness claim; Kani has no threads and Verus would need its own atomic/permission types, i.e. a re-implementation (a model), not the code that runs (DESIGN.md section 6)",
   "C12": "SubscriptionTrie is Arc<RwLock<TrieNode>> nodes with HashMap children and an AtomicUsize: no abstract view without rewriting it (Verus), parking_lot crashes kani-compiler 0.68; non-blocking fan-out is a schedule property",
   "C15": "the deciding state (bytes framed but unwritten in another actor, kernel buffers, the close deadline) spans actors and the OS; no contract over one function expresses 'accepted messages are transmitted within LINGER'",
